@@ -262,6 +262,8 @@ def configs(tier, seed):
             out.append(('factory/helical_geometry/%s' % v, dict(kind='factory', geom='helical', vol=v, ratio=2.0)))
     for u in UTILITIES:
         out.append(('utility/%s' % u, dict(kind='utility', geom=u)))
+    for a in ARGUMENT_CASES:
+        out.append(('ndarray-arguments/%s' % a, dict(kind='arguments', geom=a)))
     for d in DETECTORS:
         out.append(('detector/%s' % d, dict(kind='detector', geom=d, _settings={'skip_undefined': True})))
     for g in SLICEABLE:
@@ -357,6 +359,62 @@ def utility_case(ctx, name):
     raise KeyError(name)
 
 
+ARGUMENT_CASES = ['par2d', 'par3d-axis', 'par3d-euler', 'fan', 'cone']
+
+
+def arguments_case(ctx, name):
+    """all vector arguments given as float64 ndarrays (which constructors may alias): a second geometry built from
+    the same arrays, and slices, yield the same vectors as the first one did right after its construction"""
+    T = odl.tomo
+    from symnp import proxy
+    was = proxy.STATE.armed
+    proxy.STATE.armed = False
+    try:
+        f = lambda *v: np.array(v, dtype='float64')          # noqa
+        if name == 'par2d':
+            args = dict(det_pos_init=f(1.2, -1.6), det_axis_init=f(0.6, 0.8), translation=f(0.5, -1.5))
+            mk = lambda: T.Parallel2dGeometry(AP, DP1, **args)                            # noqa
+        elif name == 'par3d-axis':
+            args = dict(axis=f(1, 2, 2), det_pos_init=f(2, -2, 1), translation=f(1, -2, 0.5),
+                        det_axes_init=[f(2 / 3., 1 / 3., -2 / 3.), f(1 / 3., 2 / 3., 2 / 3.)])
+            mk = lambda: T.Parallel3dAxisGeometry(AP, DP2, **args)                        # noqa
+        elif name == 'par3d-euler':
+            args = dict(det_pos_init=f(2, -2, 1), translation=f(1, -2, 0.5),
+                        det_axes_init=[f(2 / 3., 1 / 3., -2 / 3.), f(1 / 3., 2 / 3., 2 / 3.)])
+            mk = lambda: T.Parallel3dEulerGeometry(AP2, DP2, **args)                      # noqa
+        elif name == 'fan':
+            args = dict(src_to_det_init=f(1.2, -1.6), det_axis_init=f(0.8, 0.6), translation=f(0.5, -1.5))
+            mk = lambda: T.FanBeamGeometry(AP, DP1, 2.0, 3.0, **args)                     # noqa
+        else:
+            args = dict(axis=f(1, 2, 2), src_to_det_init=f(4, -4, 2), translation=f(1, -2, 0.5), pitch=1.5,
+                        det_axes_init=[f(2 / 3., 1 / 3., -2 / 3.), f(1 / 3., 2 / 3., 2 / 3.)])
+            mk = lambda: T.ConeBeamGeometry(AP, DP2, 2.0, 3.0, **args)                    # noqa
+        g1 = mk()
+    finally:
+        proxy.STATE.armed = was
+    nd = g1.ndim
+    info = dict(nd=nd, kind='par' if name.startswith('par') else 'div')
+    u = dparams_for(ctx, g1)
+    if name == 'par3d-euler':
+        angles = [(0.5, 0.25), (2.5, 1.75)]
+    else:
+        angles = [0.5, 2.5]
+    first = [observe(g1, info, a, u) for a in angles]
+    g2 = mk()                                   # same argument arrays again
+    for a, obs0 in zip(angles, first):
+        o1, o2 = observe(g1, info, a, u), observe(g2, info, a, u)
+        for k in sorted(obs0):
+            ctx.eq('first-geometry-unchanged-by-building-a-second/%s' % k, o1[k], obs0[k])
+            ctx.eq('second-geometry-from-the-same-arrays=first/%s' % k, o2[k], obs0[k])
+    if hasattr(type(g1), '__getitem__') and name != 'par3d-euler':
+        s_ = g1[2:]
+        a = 2.5
+        obs_s, obs_g = observe(s_, info, a, u), observe(g1, info, a, u)
+        for k in sorted(obs_g):
+            ctx.eq('slice=original/%s' % k, obs_s[k], first[1][k])
+            ctx.eq('original-unchanged-by-slicing/%s' % k, obs_g[k], first[1][k])
+
+
 DETECTORS = ['flat1d/generic-axis', 'flat2d/generic-axes', 'circular/generic-axis', 'cylindrical/generic-axes',
              'spherical/generic-axes']
 
@@ -402,6 +460,15 @@ def detector_case(ctx, name):
             f = lambda q: np.asarray(det.surface(q[0] if npar == 1 else tuple(q)), dtype=float)     # noqa
             tang = list((f(up) - f(dn)) / (2 * h))
         ctx.eq('surface_deriv[%d]=d surface/d p%d' % (i, i), derivs[i], tang)
+    # at the reference point the tangents point along the axes the detector was aligned with
+    t0 = tolist(det.surface_deriv(zero))
+    t0 = [t0] if npar == 1 else t0
+    given = [[0.6, 0.8]] if nd == 2 else [[2 / 3., 1 / 3., -2 / 3.], [1 / 3., 2 / 3., 2 / 3.]]
+    for i in range(npar):
+        along = dot(t0[i], given[i])
+        ctx.eq('tangent-at-reference-point[%d]-parallel-to-axis[%d]' % (i, i), t0[i], vscale(along, given[i]),
+               tol=(1e-9, 8))
+        ctx.le('tangent-at-reference-point[%d]-same-direction' % i, 0, along)
     normal = tolist(det.surface_normal(arg))
     ctx.eq('|normal|=1', dot(normal, normal), 1)
     for i in range(npar):
@@ -569,6 +636,8 @@ def case(ctx, kind, geom, sl=None, vol=None, ratio=None):
         return detector_case(ctx, geom)
     if kind == 'utility':
         return utility_case(ctx, geom)
+    if kind == 'arguments':
+        return arguments_case(ctx, geom)
     g, info = build(ctx, geom)
     nd = info['nd']
     t = info['t']
@@ -594,6 +663,15 @@ def case(ctx, kind, geom, sl=None, vol=None, ratio=None):
         if info.get('axes'):
             ctx.eq('det_axes_init=normalised-argument', axes_init, [list(unit(ax)) for ax in info['axes']],
                    tol=(1e-9, 8))
+        if info.get('curved'):
+            zero = 0.0 if nd == 2 else (0.0, 0.0)
+            t0 = tolist(g.detector.surface_deriv(zero))
+            t0 = [t0] if nd == 2 else t0
+            for i, ax in enumerate(axes_init):
+                along = dot(t0[i], ax)
+                ctx.eq('curved-detector-tangent-at-reference-point[%d]-along-det_axes_init' % i, t0[i],
+                       vscale(along, ax), tol=(1e-9, 8))
+                ctx.le('curved-detector-tangent[%d]-same-direction' % i, 0, along)
         if not info.get('curved'):
             uu = [u] if nd == 2 else list(u)
             ctx.eq('flat-surface=sum(u_i.axis_i)', surf, vadd(*[vscale(ui, ax) for ui, ax in zip(uu, axes_init)]))
